@@ -16,7 +16,7 @@ func zzTypes() []Type {
 	}
 }
 
-func zzU16p(v uint16) *uint16              { return &v }
+func zzU16p(v uint16) *uint16                    { return &v }
 func zzEHp(v ExpressionHandle) *ExpressionHandle { return &v }
 
 // zzConstLiteral returns the literal that a resolved override (as Constant -> GlobalExpression) holds.
@@ -38,7 +38,9 @@ func zzConstLiteral(m *Module, name string) (LiteralValue, bool) {
 // resolution on a clone must not write into the caller's module (write barrier in the
 // engine, deep comparison natively).
 // shape 0: helper returns the override-derived value (the statement holds the handle through a
-//          pointer: known finding "clone-shares-stmt-pointers");
+//
+//	pointer: known finding "clone-shares-stmt-pointers");
+//
 // shape 1: helper stores the value into a local (no pointer-held handles in statements).
 func zzIsolationBody() {
 	vi := int32(zz.I16("v")) // bound: 16-bit supplied value, 8-bit literal (exact products)
